@@ -73,6 +73,9 @@ def gen_prog(rng, nmax=5, ssa_bias=0.35):
         # prefer reading something that exists
         ins = []
         for _ in range(nin):
+            if not want_ssa and ins and rng.random() < 0.05:
+                ins.append(rng.choice(ins))          # the same key read twice
+                continue
             cand = [k for k in (written if written and rng.random() < 0.5 else pool_in) if k not in ins]
             if cand:
                 ins.append(rng.choice(cand))
@@ -80,6 +83,9 @@ def gen_prog(rng, nmax=5, ssa_bias=0.35):
         for _ in range(nout):
             if not want_ssa and rng.random() < 0.12:
                 outs.append(SINK)
+                continue
+            if not want_ssa and [k for k in outs if k != SINK] and rng.random() < 0.05:
+                outs.append(rng.choice([k for k in outs if k != SINK]))      # the same key written twice by one module: the last output wins
                 continue
             if want_ssa:
                 cand = [k for k in UNIVERSE if k not in written and k not in read and k not in ins and k not in outs]
